@@ -5,9 +5,9 @@ CONSTANTS
   Shapes <- HeaderShapes
   AbsLens = {1, 300, 65535, 65536}
   RelLens = TRUE
-  MaxWrites = 10
+  MaxWrites = 8
   WriterFollowsOwnSCS = TRUE
-  HsOrder = "serial"
+  HsOrder = "free"
   HsReadExact = TRUE
-INVARIANTS NoDesync Emit
+INVARIANTS NoDesync HsExact Emit
 CHECK_DEADLOCK FALSE
